@@ -447,3 +447,31 @@ def rule_forward_closure(ctx, cfg, F):
             else:
                 R.violate("%s:forward-count" % f.path, "forwarding closure does not send exactly once per message (%d send sites)" % len(sends), f.path, f.loc(0), config=cfg)
     R.count("forward_closures[%s]" % cfg, n)
+
+
+REORDER = ("sort", "sort_by", "sort_by_key", "sort_unstable", "sort_unstable_by", "sort_unstable_by_key", "sort_by_cached_key", "reverse", "swap", "rotate_left", "rotate_right",
+           "swap_remove", "dedup", "dedup_by", "dedup_by_key", "retain", "retain_mut", "rev", "select_nth_unstable", "select_nth_unstable_by_key", "partition", "shuffle", "insert", "truncate", "split_off")
+
+
+def rule_batch_order(ctx, cfg, F, rule_name="RT-ORDER"):
+    R = ctx.rule(rule_name, "the batch of events returned by select() is consumed in the order returned: no sorting, reversing, swapping, filtering or partial consumption API is applied to it "
+                 "between select() and the dispatch loop (per-channel message order is the order of the batch)")
+    n = 0
+    for f in sorted(F.fns.values(), key=lambda x: x.path):
+        sels = [(b, t) for b, t in f.calls() if strip_generics(callee_name(t)).endswith("ReceiverSet::select") and not f.path.startswith("platform::")]
+        if not sels:
+            continue
+        tr = Tracer(f)
+        sel_blocks = {b for b, t in sels}
+        for b, t in f.calls():
+            nm = strip_generics(callee_name(t))
+            short = nm.split("::")[-1]
+            if short in REORDER and t["args"]:
+                roots = tr.roots_of_operand(t["args"][0])
+                if any(r.kind == "call" and r.block in sel_blocks for r in roots):
+                    R.violate("%s:batch-reordered:%s" % (strip_generics(f.path), short), "%s applies %s to the batch returned by select(): events of one channel can be handled out of order (or a closure before its last message)" % (f.path, nm),
+                              f.path, f.loc(b), config=cfg)
+                    n += 1
+        R.count("select_consumers[%s]" % cfg)
+        if not any(fi.rule == rule_name and fi.fn == f.path for fi in ctx.findings):
+            R.ok("%s consumes the select() batch in order" % f.path, f.loc(sels[0][0]), cfg)
